@@ -612,7 +612,7 @@ func checkC01(c *Ctx) {
 		// regenerated tie for the type translation
 		if rep := c.Drv.Ask("ov ptrify " + tDesc); rep != "ok "+tt.tyDesc(PT) {
 			res.Add(Finding{Kind: "disagreement", What: "Pointerify: model != implementation", Case: cs, Observed: tt.tyDesc(PT), Model: rep})
-			continue
+			// no `continue`: the leaf-wise oracle below does not depend on the model
 		}
 		nl := r.Intn(6)
 		pset := 15 + r.Intn(70)
